@@ -262,6 +262,13 @@ func (s *IncrSolver) Check(sym *SymCtx, asserts []string) bool {
 		b.WriteString("(assert " + a + ")\n")
 	}
 	b.WriteString("(check-sat)\n(pop)\n")
+	t0 := time.Now()
+	defer func() {
+		if d := time.Since(t0); d > time.Second && os.Getenv("GOVC_DEBUG_SLOW") != "" {
+			_ = os.WriteFile(fmt.Sprintf("/tmp/x/slow-%d.smt2", s.Calls), []byte(b.String()), 0o644)
+			fmt.Fprintf(os.Stderr, "slow feasibility query %d: %v\n", s.Calls, d)
+		}
+	}()
 	if _, err := io.WriteString(s.stdin, b.String()); err != nil {
 		s.dead = true
 		return true
